@@ -126,7 +126,7 @@ def Dict.loadApp (D : Dict) (app : DocApp) : Dict :=
 does not know, so documents are restricted to known ones by the generator (`docOk`) -/
 def Dict.loadDoc (D : Dict) (doc : Doc) : Dict := doc.foldl Dict.loadApp D
 
-def docOk (doc : Doc) : Bool :=
-  doc.all fun app => appKnown app.id && app.cmds.all fun c => cmdKnown c.1
+def docOk (T : Tables) (doc : Doc) : Bool :=
+  doc.all fun app => T.appKnown app.id && app.cmds.all fun c => T.cmdKnown c.1
 
 end Dia
